@@ -76,6 +76,17 @@ Theorem C29_served_once : forall init hist k sel,
 Proof. exact served_once. Qed.
 Print Assumptions C29_served_once.
 
+(* ... and on the case: for inputs whose original blocks share no sample, a legal history with
+   covering, non-nested selections ends (at quiescence) with every sample listed once in what
+   is served, under both treatments of deletion marks. Together with
+   C29_accepted_case_is_safe: corr_ok /\ cover_all -> pred_ok for non-overlapping inputs. *)
+Theorem C29_accepted_case_serves_once : forall c,
+  corr_ok c = true -> cover_all c = true ->
+  match c with CHist _ init _ _ _ _ => orig_disjoint_b init = true end ->
+  once_ok c = true.
+Proof. exact once_case. Qed.
+Print Assumptions C29_accepted_case_serves_once.
+
 (* ---- non-vacuity: three original blocks are compacted into block 3; the sources are
    marked one after the other and then deleted; the selections are those of the duplicate
    filter. ---- *)
@@ -94,6 +105,7 @@ Example C29_nonvacuous :
   /\ cover_ok (fold_left apply_hop (firstn 7 ex_hist) (init_state ex_init)) true [3]%N = true
   /\ antichain_ok (fold_left apply_hop (firstn 1 ex_hist) (init_state ex_init)) [3]%N = true
   /\ antichain_ok (init_state ex_init) [0; 1; 2]%N = true
+  /\ orig_disjoint_b ex_init = true
   /\ legal (init_state ex_init) [HMark 0] = false      (* retiring a source before the result exists is illegal *)
   /\ legal (init_state ex_init) [HDel 0] = false.
 Proof.
